@@ -96,6 +96,22 @@ def check_init(run, pkg, attrs, ex):
                 g = tr.tr(a[1])
                 ref = S.PyInt(qr * 2 / (2 * sp.pi / Lm))
                 ok, how = S.decide_equal(g, ref)
+                if ok is not True and tr.atoms:
+                    # reductions over the box lengths the algebra does not interpret (min / max ...): the extracted argument is
+                    # evaluated for boxes with unequal edges and several q ranges
+                    import numpy as np
+                    from ..concrete import ev as cev
+                    try:
+                        for Lv, qv_ in ((np.array([5.0, 7.0, 12.0]), 4.0), (np.array([9.0, 6.0]), 2.5), (np.array([10.0, 10.0, 10.0]), 3.0)):
+                            got = cev(a[1], {L0: Lv, ("sym", "qrange"): qv_})
+                            want_n = int(qv_ * 2.0 / (2 * np.pi / Lv).min())
+                            if int(got) != want_n:
+                                ok, how = False, (f"box {Lv.tolist()}, qrange {qv_}: the generator is asked for {int(got)} integer steps, int(2 qrange / min(2 pi / L)) = {want_n} "
+                                                  f"(the smallest spacing 2 pi / L belongs to the LONGEST edge)")
+                                tr.atoms.clear()
+                                break
+                    except Exception:  # noqa
+                        pass
                 run.ob("R-ALG", fq, f"{arm}:numofq", ok if not (ok is False and tr.atoms) else None, "number of integer steps = int(2 qrange / min(2 pi / L))",
                        sp.sstr(g)[:100], witness=None if ok is not False else how, loc=loc, sound=True)
             okp = eqv(a[2], ("sym", "onlypositive")) if len(a) >= 3 else None
